@@ -6,6 +6,7 @@ import Dtaiverif.Model.Settings
 import Dtaiverif.Model.Bounds
 import Dtaiverif.Model.Compact
 import Dtaiverif.Model.Path
+import Dtaiverif.Model.Matrix
 
 open Lean
 
@@ -159,11 +160,38 @@ def opPath (j : Json) : Except String Json := do
   return Json.mkObj [("path", cellsJ path), ("end", cellsJ [w.endCell]), ("accept", Json.arr acc.toArray),
     ("value", costJ (M start.1 start.2))]
 
+def getBlock (j : Json) : Option Block :=
+  match getNatArr j "block" with
+  | .ok a => if a.size ≥ 4 then
+      some { rb := a.getD 0 0, re := a.getD 1 0, cb := a.getD 2 0, ce := a.getD 3 0, triu := getBoolD j "triu" true }
+    else none
+  | .error _ => none
+
+/-- op "matrixplan": which pairs a distance-matrix call computes, in which order and into which slots -/
+def opMatrixPlan (j : Json) : Except String Json := do
+  let n ← getNat j "n"
+  let ob := getBlock j
+  let cb := toCBlock ob
+  let plan := preparePlan n cb
+  let writes := plan.map fun row => Json.arr ((rowWrites n cb row).map fun w =>
+    Json.arr #[Json.num w.1, Json.num w.2.1, Json.num w.2.2]).toArray
+  let cidx := (List.range n).flatMap fun (a : Nat) => (List.range n).filterMap fun (b : Nat) =>
+    if a < b then
+      let i1 : Nat := condensedIndex a b n
+      let i2 : Nat := condensedIndex b a n
+      some (Json.arr #[Json.num (a : Nat), Json.num (b : Nat), Json.num i1, Json.num i2])
+    else none
+  return Json.mkObj [("pairs", cellsJ (pairs n ob)), ("lengthPy", Json.num (lengthPy n ob)),
+    ("lengthC", Json.num (lengthC n cb)), ("pairsC", cellsJ (pairsC n cb)),
+    ("plan", Json.arr (plan.map fun r => Json.arr #[Json.num r.1, Json.num r.2.1, Json.num r.2.2]).toArray),
+    ("writes", Json.arr writes.toArray), ("condensed", Json.arr cidx.toArray)]
+
 def dispatch (j : Json) : Except String Json := do
   let op ← (j.getObjVal? "op") >>= (·.getStr?)
   let res ← match op with
     | "dtw" => opDtw j
     | "path" => opPath j
+    | "matrixplan" => opMatrixPlan j
     | "parts" => opParts j
     | "expand" => opExpand j
     | "ping" => pure (Json.mkObj [("pong", Json.bool true)])
